@@ -1,0 +1,10 @@
+//go:build verif
+
+// Contracts for the deductive verifier in /verif (govc): the total match limit
+// only stops the scheduling of further shards (C21). Comment-only file,
+// compiled only with -tags verif. Reads-frame contract (frames back end).
+
+package search
+
+//@ func search.streamSearch
+//@   control_only SearchOptions.TotalMaxMatchCount
